@@ -304,11 +304,7 @@ func (h *Handler) HandleCreateFile(ctx *Context, path string) error {
 
 	// path is a directory -> closing file, just return
 	stat, err := h.Fs.Stat(path)
-	if err != nil {
-		log.WarnContext(ctx, "Stat failed", logutil.ErrorAttr(err))
-		return err
-	}
-	if stat.IsDir() {
+	if err == nil && stat.IsDir() {
 		return nil
 	}
 
